@@ -234,7 +234,10 @@ class ExprMixin(EngineCore):
             # trial evaluation of all operands on a copy: an operand that raises (or forks the state) may be one that Python's
             # short-circuit evaluation never reaches - then the lazy, forking evaluation decides
             n_ob = len(self.obligations)
-            trial = self.eval_seq(e.values, st.clone(), ctx)
+            try:
+                trial = self.eval_seq(e.values, st.clone(), ctx)
+            except EngineError:
+                trial = []  # e.g. an attribute read on None that the left operand guards: only the lazy evaluation is meaningful
             del self.obligations[n_ob:]  # obligations of the trial run are regenerated by the real one
             if len(trial) != 1 or isinstance(trial[0][1], Raise):
                 return self.boolop_fork(e, st, ctx)
